@@ -483,7 +483,8 @@ def _r1(ctx):
         fn = fuse_comprehensions(_copy.deepcopy(fn))
         fl = Flow(fn, FILE, resolver=lambda name: pkg.resolve("TemplateLoader", name)[1], consts=_rm.dataclass_types(FILE), func_resolver=_rm.func_resolver(FILE))
     else:
-        fl = Flow(fn, FILE, resolver=lambda name: pkg.resolve("TemplateLoader", name)[1])
+        # (small module-level helpers called by their bare name -- `_rate_assignment(sym, i, expr, cond)` -- are read as what they return)
+        fl = Flow(fn, FILE, resolver=lambda name: pkg.resolve("TemplateLoader", name)[1], func_resolver=_rm.func_resolver(FILE))
     W = (FILE, fn.lineno)
     rets = [f for f in fl.facts if f.kind == "return"]
     if len(rets) != 1:
